@@ -385,7 +385,7 @@ PLANS = {
     "C11": plan(["flow_q", "flow_treasury_q", "fees_q", "fee150_q"], ["flow_t", "flow_treasury_t", "flow_amounts_t", "fees_t", "fee150_q"],
                 ["flow_treasury_q", "fees_q", "fee150_q"], ["flow_t", "flow_treasury_t", "fees_t", "fee150_q"], W_Q, W_T),
     "C12": plan(["own"], ["own_t"], ["own"], ["own_t"], [("admin", 10, 60)], [("admin", 150, 70)]),
-    "C13": plan(["treasury_q"], ["treasury_t"], ["treasury_q"], ["treasury_t"], [], []),
+    "C13": plan(["treasury_q", "flow_treasury_q"], ["treasury_t", "flow_treasury_q"], ["treasury_q", "flow_treasury_q"], ["treasury_t", "flow_treasury_q"], [], []),
     "C14": plan(["gate_q"], ["gateadmin_t"], [], ["gateadmin_t"], [("admin", 8, 60)], [("admin", 100, 70)]),
     "C15": plan(["flow_q", "flow_treasury_q"], ["flow_t", "flow_treasury_t", "flow_amounts_t", "flow_resume_t"], ["flow_q", "flow_treasury_q"],
                 ["flow_t", "flow_treasury_t", "flow_extras_t"], W_Q, W_T),
